@@ -188,6 +188,14 @@ end Names
 
 /-! ## Flow values (`lena/flow/functions.py`) -/
 
+/-- classes of data values beyond `NoneType`, `bool`, `int`, `str` and the plain tuple: built-in ones (`float`,
+`dict`, `list`), user-defined ones (`intSub`: a subclass of `int`; `strSub`: a subclass of `str`; `user` and its
+subclass `userSub`), `fractions.Fraction` (a `numbers.Number` by its abstract base class `Rational`) and a named
+tuple (a subclass of `tuple`) -/
+inductive PyType where
+  | float | dict | list | intSub | strSub | user | userSub | fraction | namedTuple
+  deriving DecidableEq, Repr
+
 /-- the data part of a value, as far as `isinstance` can see it -/
 inductive Data where
   | none
@@ -195,12 +203,47 @@ inductive Data where
   | int (i : Int)
   | str (s : String)
   | tuple                      -- a tuple that is not a (data, context) pair
+  | other (t : PyType)         -- an instance of one of the further classes
   deriving DecidableEq, Repr
 
-/-- the classes a class-selector is built from -/
+/-- the classes a class-selector is built from: concrete classes, user-defined classes, and the abstract base
+classes `numbers.Number`, `numbers.Integral`, `collections.abc.Mapping`, `Sequence`, `Hashable` (a class is an
+instance of those by *registration* or by a `__subclasshook__`, not by inheritance) -/
 inductive PyClass where
   | object | int | bool | str | tuple | float | dict
+  | list | noneType | intSub | strSub | user | userSub
+  | number | integral | mapping | sequence | hashable
   deriving DecidableEq, Repr
+
+/-- `isinstance(data, cls)` for the further classes of data: what Python's `isinstance` answers for an instance
+of `t` (inheritance: `intSub < int`, `strSub < str`, `userSub < user`, named tuple `< tuple`; abstract base
+classes: `float`, `int` and `Fraction` are registered as `Number`s, `dict` is a `Mapping`, `str`, `tuple` and
+`list` are `Sequence`s, everything with a `__hash__` is `Hashable` — not `dict` and `list`) -/
+def isinstanceT : PyType → PyClass → Bool
+  | _, .object => true
+  | .float, .float => true
+  | .dict, .dict => true
+  | .list, .list => true
+  | .intSub, .intSub => true
+  | .intSub, .int => true
+  | .strSub, .strSub => true
+  | .strSub, .str => true
+  | .user, .user => true
+  | .userSub, .userSub => true
+  | .userSub, .user => true
+  | .namedTuple, .tuple => true
+  | .float, .number => true
+  | .intSub, .number => true
+  | .fraction, .number => true
+  | .intSub, .integral => true
+  | .dict, .mapping => true
+  | .list, .sequence => true
+  | .strSub, .sequence => true
+  | .namedTuple, .sequence => true
+  | .dict, .hashable => false
+  | .list, .hashable => false
+  | _, .hashable => true
+  | _, _ => false
 
 /-- `isinstance(data, cls)` (`bool` is a subclass of `int`) -/
 def isinstance : Data → PyClass → Bool
@@ -210,6 +253,19 @@ def isinstance : Data → PyClass → Bool
   | .bool _, .bool => true
   | .str _, .str => true
   | .tuple, .tuple => true
+  | .other t, c => isinstanceT t c
+  | .none, .noneType => true
+  | .int _, .number => true
+  | .bool _, .number => true
+  | .int _, .integral => true
+  | .bool _, .integral => true
+  | .str _, .sequence => true
+  | .tuple, .sequence => true
+  | .none, .hashable => true
+  | .bool _, .hashable => true
+  | .int _, .hashable => true
+  | .str _, .hashable => true
+  | .tuple, .hashable => true
   | _, _ => false
 
 /-- a flow value: bare data (`ctx = none`) or a `(data, context)` pair -/
